@@ -103,9 +103,9 @@ def canaries(ctx):
     a hanging write or alignment loop is reported from here in seconds instead of stalling every shard of the streams"""
     bad = []
     for line in CANARIES:
-        ans = nvlib.run_lines(ctx.harness, [line], timeout=10, shards=1)[0]
+        ans = nvlib.run_lines(ctx.harness, [line], timeout=60, shards=1)[0]
         if ans.startswith("DIED") or ans == "MISSING":
-            bad.append({"sig": "C05:crash:canary:" + line[:80], "input": line, "expected": "an answer within 10 s",
+            bad.append({"sig": "C05:crash:canary:" + line[:80], "input": line, "expected": "an answer within 60 s",
                         "observed": ans[:300], "what": "the real code died or did not return on a basic operation",
                         "replay_line": line})
     return bad
@@ -312,7 +312,7 @@ def oracle(ctx, orc, focus=None):
 def replay(ctx, rec):
     f = rec.get("failure") or {}
     if f.get("replay_line"):
-        ans = nvlib.run_lines(ctx.harness, [f["replay_line"]], timeout=10, shards=1)[0]
+        ans = nvlib.run_lines(ctx.harness, [f["replay_line"]], timeout=60, shards=1)[0]
         return {"fails": ans.startswith("DIED") or ans == "MISSING", "line": f["replay_line"], "impl": ans}
     case = f.get("case")
     if not case:
